@@ -89,6 +89,12 @@ def cfg_bin(tier, seed):
                 for ends in ('symmetric', 'inside'):
                     for pp in (True, False):
                         out.append({'grid': grid, 'centres': centres, 'method': method, 'ends': ends, 'preserve': pp})
+    # centres given in another wavelength unit than the spectrum's (micrometres on a nanometre spectrum)
+    for centres in ([505, 515, 525], [501, 519, 537]):
+        for method in ('trapz',):           # (Simpson weights on a micrometre grid are scipy floats: trapezoid only, as for the metre grids)
+            for ends in ('symmetric', 'inside'):
+                for pp in (True, False):
+                    out.append({'grid': 'u5', 'centres': centres, 'method': method, 'ends': ends, 'preserve': pp, 'cunit': 'um'})
     # centres handed over as a list of Python ints (an integer-typed array inside bin), odd spacing: the mid-points are half-integers
     for centres in ([505, 510], [505, 510, 515]):
         for method in ('trapz', 'simps'):
@@ -102,14 +108,16 @@ def run_bin(W, cfg):
     grid = GR[cfg['grid']]
     n = len(grid)
     ctr = cfg['centres']
+    ku = Fraction(1, 1000) if cfg.get('cunit') == 'um' else Fraction(1)          # centres are written in nm here and handed over in cunit
+    ukw = {'waveunit': 'um'} if cfg.get('cunit') == 'um' else {}
     as_arg = (lambda: [int(c) for c in ctr]) if cfg.get('ctype') == 'int' else \
-        (lambda: W.array([W.const(Fraction(c)) for c in ctr]) if W.sym else [float(c) for c in ctr])
+        (lambda: W.array([W.const(Fraction(c) * ku) for c in ctr]) if W.sym else [float(Fraction(c) * ku) for c in ctr])
     s, v = _spec(W, R, 's', grid, 'v', nonneg=True)
     v0 = list(v)
     if cfg['preserve']:
         W.assume(W.sum(v) > 0)
     try:
-        bins = s.bin(as_arg(), interp_method=cfg['method'], ends=cfg['ends'], preserve_power=cfg['preserve'])
+        bins = s.bin(as_arg(), interp_method=cfg['method'], ends=cfg['ends'], preserve_power=cfg['preserve'], **ukw)
     except ZeroDivisionError:
         return            # all bins zero: the property only speaks of power preservation when the bins carry power
     W.ob_true('one value per centre', len(bins) == len(ctr))
@@ -117,19 +125,19 @@ def run_bin(W, cfg):
         W.ob_true(f'non-negative for a non-negative spectrum [{k}]', bins[k] >= 0)
     W.ob('spectrum untouched', s.value, W.array(v0))
     if cfg['preserve']:
-        W.ob('bins sum to the integral over the span of the centres', W.sum(bins[k] for k in range(len(ctr))), s.integrate(min(ctr), max(ctr), method=cfg['method']))
+        W.ob('bins sum to the integral over the span of the centres', W.sum(bins[k] for k in range(len(ctr))) * (1 / ku), s.integrate(min(ctr), max(ctr), method=cfg['method']))
     else:
         # exact for a spectrum that is linear across each bin: an affine spectrum v = p + q*w
         p, q = W.real('p'), W.real('q')
         aff = R.Spectrum(s.wave, W.array([p + q * g for g in grid]))
-        b2 = aff.bin(as_arg(), interp_method=cfg['method'], ends=cfg['ends'], preserve_power=False)
+        b2 = aff.bin(as_arg(), interp_method=cfg['method'], ends=cfg['ends'], preserve_power=False, **ukw)
         half = [Fraction(ctr[k + 1] - ctr[k], 2) for k in range(len(ctr) - 1)]
         edges = [ctr[0] - half[0] if cfg['ends'] == 'symmetric' else Fraction(ctr[0])] + [ctr[k] + half[k] for k in range(len(half))] + [ctr[-1] + half[-1] if cfg['ends'] == 'symmetric' else Fraction(ctr[-1])]
         if edges[0] >= grid[0] and edges[-1] <= grid[-1]:
             for k in range(len(ctr)):
                 e0, e1 = edges[k], edges[k + 1]
                 exact = p * (e1 - e0) + q * (e1 * e1 - e0 * e0) / 2
-                W.ob(f'exact for an affine spectrum [{k}]', b2[k], exact)
+                W.ob(f'exact for an affine spectrum [{k}]', b2[k] * (1 / ku), exact)
 
 
 # ------------------------------------------------------------------ resizing programs
@@ -220,6 +228,18 @@ def run_prog(W, cfg):
             g1 = pairs[-1][0]
             other = R.Spectrum(W.array([W.const(g1 + 5), W.const(g1 + 9)]) if W.sym else [float(g1 + 5), float(g1 + 9)], W.array([W.real(f'ap{step}a'), W.real(f'ap{step}b')]))
             extra = [(g1 + 5, other.value[0]), (g1 + 9, other.value[1])]
+            # a spectrum that starts on (or before) the last wavelength cannot be appended: the grid would not be strictly increasing
+            for nm_, start in (('touching', g1), ('overlapping', g1 - 1)):
+                bad = R.Spectrum(W.array([W.const(start), W.const(g1 + 4)]) if W.sym else [float(start), float(g1 + 4)], W.array([W.real(f'bd{step}a'), W.real(f'bd{step}b')]))
+                n0 = len(s.wave)
+                for cp in (False, True):
+                    try:
+                        r_ = s.append(bad, copy=cp)
+                        tgt = r_ if cp else s
+                        inc = all(W.is_true(tgt.wave[k] < tgt.wave[k + 1]) for k in range(len(tgt.wave) - 1)) if W.sym else all(tgt.wave[k] < tgt.wave[k + 1] for k in range(len(tgt.wave) - 1))
+                        W.ob_true(f'{tag}: appending a {nm_} spectrum (copy={cp}) leaves a strictly increasing grid with one value per wavelength', inc and len(tgt.wave) == len(tgt.value))
+                    except ValueError:
+                        W.ob_true(f'{tag}: a refused append (copy={cp}, {nm_}) leaves the spectrum as it was', len(s.wave) == n0 and len(s.value) == n0)
             if op == 'append-copy':
                 before = (list(s.wave), list(s.value))
                 new = s.append(other, copy=True)
